@@ -45,7 +45,21 @@ pub fn register(m: &mut HashMap<&'static str, OpFn>) {
         rs_out(&p)
     });
     m.insert("rs.neg", |a| rs_out(&(-a.rs(0))));
-    m.insert("rs.sum", |a| rs_out(&a.rs_list(0).iter().sum::<RistrettoPoint>()));
+    m.insert("rs.sum", |a| {
+        let v = a.rs_list(0);
+        let mut o = rs_out(&v.iter().sum::<RistrettoPoint>());
+        let h = v.len() / 2;
+        let mut it = v.clone().into_iter();
+        for x in [
+            v.clone().into_iter().sum::<RistrettoPoint>(),
+            v.iter().filter(|_| true).sum::<RistrettoPoint>(),
+            v[..h].iter().chain(v[h..].iter()).sum::<RistrettoPoint>(),
+            std::iter::from_fn(|| it.next()).sum::<RistrettoPoint>(),
+        ] {
+            o.push(hex(x.compress().as_bytes()));
+        }
+        o
+    });
     m.insert("rs.eq", |a| {
         let (p, q) = (a.rs(0), a.rs(1));
         vec![tb(p == q), tb(bool::from(p.ct_eq(&q))), tb(p.is_identity())]
